@@ -37,7 +37,7 @@ RULE = {
         "BatteryManager, (PV) 1-5 solar inverters with arbitrary negative lower bounds, requests <= 0 inside and beyond the "
         "summed bounds over all or a subset of the inverters, through a real PVManager; every set_power call gets an outcome "
         "from {ok, OperationOutOfRange, ApiClientError, RuntimeError, no reply before the timeout} (one generated vector, and "
-        "all 5^n vectors for small n). Oracle, from the Result and the recorded calls: succeeded+failed+excess == requested; "
+        "all 5^n vectors for small n) and a generated reply latency from {0, 10 ms, 0.5 s, 2 s} (all below the 5 s timeout). Oracle, from the Result and the recorded calls: succeeded+failed+excess == requested; "
         "failed_power == sum of set-points of calls that did not return normally; succeeded/failed component sets disjoint and "
         "together the components addressed; Success iff no call failed; (with C01) succeeded_power == sum of set-points of calls "
         "that returned. Non-trivial = >=2 calls with >=1 failure and >=1 success, or a timeout; distinct by SHA-1 of the "
@@ -49,19 +49,24 @@ ASSUMPTIONS = [
     "tolerance 1e-6 relative to the request",
     "API timeout 5 s of virtual time",
 ]
-MIN_LABELS = {"C15": {"pv": 0.3, "battery": 0.3, "mixed_outcomes": 0.2, "timeout": 0.1}}
+MIN_LABELS = {"C15": {"pv": 0.3, "battery": 0.3, "mixed_outcomes": 0.2, "timeout": 0.1,
+                      "mixed_outcomes_with_different_latencies": 0.1}}
 
 OUT = fakes.OUTCOMES
+LATENCIES = [0.0, 0.0, 0.0, 0.01, 0.5, 2.0]
 
 
 def strategy(tier: str, pid: str = "C15") -> st.SearchStrategy[Any]:
     del pid
     outcomes = st.lists(st.integers(0, 4), min_size=8, max_size=8)
+    # reply latency per call (index into LATENCIES; all far below the 5 s API timeout)
+    latency = st.lists(st.integers(0, len(LATENCIES) - 1), min_size=8, max_size=8)
     bat = st.fixed_dictionaries({
         "kind": st.just("battery"),
         "groups": batsys.groups(max_groups=3 if tier == "quick" else 4),
         "req": batsys.request_strategy(),
         "outcomes": outcomes,
+        "latency": latency,
     })
     bound = st.one_of(st.sampled_from([0.0, 100.0, 1000.0]), st.integers(1, 5000).map(float), st.floats(0.0, 5000.0))
     pv = st.fixed_dictionaries({
@@ -73,6 +78,7 @@ def strategy(tier: str, pid: str = "C15") -> st.SearchStrategy[Any]:
             "frac": st.one_of(st.sampled_from([0.001, 0.5, 0.999]), st.floats(0.0, 1.0)),
         }),
         "outcomes": outcomes,
+        "latency": latency,
     })
     return st.one_of(bat, pv)
 
@@ -156,6 +162,11 @@ def _run_battery(case: dict[str, Any], v: Verdict, enum_limit: int) -> None:
                 mw.api.set_power_calls.clear()
                 mw.api.set_power_outcomes.clear()
                 mw.api.outcome_fn = lambda cid, p, idx, m=by_inv: m[cid]
+                lat = case.get("latency", [0])
+                lat_by_inv = {cid: LATENCIES[lat[k % len(lat)]] for k, cid in enumerate(order)}
+                mw.api.latency_fn = lambda cid, p, idx, m=lat_by_inv: m[cid]
+                if len({lat_by_inv[c] for c in order}) > 1 and any(o != "ok" for o in vec) and "ok" in vec:
+                    v.labels.add("mixed_outcomes_with_different_latencies")
                 await mw.feed()
                 await world.settle()
                 result = await mw.request(power, adjust_power=True)
@@ -241,11 +252,16 @@ def _run_pv(case: dict[str, Any], v: Verdict, enum_limit: int) -> None:
                 pw.api.set_power_calls.clear()
                 pw.api.set_power_outcomes.clear()
                 pw.api.outcome_fn = lambda cid, p, idx, m=by_inv: m[cid]
+                lat = case.get("latency", [0])
+                lat_by_inv = {cid: LATENCIES[lat[k % len(lat)]] for k, cid in enumerate(sorted(ids))}
+                pw.api.latency_fn = lambda cid, p, idx, m=lat_by_inv: m[cid]
+                if len(set(lat_by_inv.values())) > 1 and any(o != "ok" for o in vec) and "ok" in vec:
+                    v.labels.add("mixed_outcomes_with_different_latencies")
                 req = Request(Power.from_watts(power), frozenset(ids), True)
                 await pw.manager.distribute_power(req)
                 await world.settle()
                 try:
-                    result = await asyncio.wait_for(pw.results_rx.receive(), timeout=1.0)
+                    result = await asyncio.wait_for(pw.results_rx.receive(), timeout=4.0)
                 except asyncio.TimeoutError:
                     v.fail(f"PV request {power} over {sorted(ids)} produced no result")
                     return
